@@ -25,9 +25,12 @@ from vlib.common import *
 
 PROP = "C02"
 NWORK = 16
-CPU_LIMIT = 10.0          # CPU seconds one input may use (typical: < 1 ms; the largest bundled file: < 0.2 s)
+CPU_LIMIT = 10.0          # base CPU seconds one input may use (typical: < 1 ms; the largest bundled file: < 0.2 s)
+CPU_PER_BYTE = 30e-6      # plus this much per byte of the input (measured worst case: 6 us/byte on 1.7 MB of nested external names)
 WALL_LIMIT = 1500.0       # wall-clock backstop without any progress of a worker (machine overload tolerant)
 OPS_CPU_LIMIT = 60.0      # CPU seconds for the whole cursor-program run (typical: 1-2 s; x10 in the thorough tier)
+MAX_REPLAY_TOKENS = 60000   # inputs with more tokens are not replayed through the extracted model (cost), see below
+MAX_REPLAY_WORK = 20000000  # iterations x tokens up to which an input is replayed through the extracted loop model
 MAX_HANGS = 6            # watchdog kills / process deaths after which a stream is abandoned
 MEM_KB = 6000000          # address space of a worker (ulimit -v)
 TICK = os.sysconf("SC_CLK_TCK") if hasattr(os, "sysconf") else 100
@@ -54,6 +57,7 @@ class Worker:
         self.wid, self.hbin, self.cases, self.outdir = wid, hbin, cases, outdir
         self.start, self.end, self.stride, self.offset = start, end, stride, offset
         self.results = {}
+        self.hangs = 0
         self.spawns = 0
         self.proc = None
         self.done = start >= end
@@ -81,16 +85,15 @@ class Worker:
         chunk = self.fh.read()
         if not chunk:
             return False
-        self.buf += chunk
+        parts = (self.buf + chunk).split("\n")
+        self.buf = parts.pop()          # incomplete last line
         progressed = False
-        while True:
-            nl = self.buf.find("\n")
-            if nl < 0:
-                break
-            line, self.buf = self.buf[:nl], self.buf[nl + 1:]
+        for line in parts:
             progressed = True
             if line.startswith("B "):
-                self.cur = int(line[2:])
+                f = line.split()
+                self.cur = int(f[1])
+                self.cur_limit = CPU_LIMIT + (int(f[2]) if len(f) > 2 else 0) * CPU_PER_BYTE
                 self.cur_cpu0 = None
                 self.cur_wall0 = time.time()
             elif line.startswith("R "):
@@ -135,7 +138,7 @@ class Worker:
             if cpu is not None:
                 if self.cur_cpu0 is None:
                     self.cur_cpu0 = cpu
-                hang = cpu - self.cur_cpu0 > CPU_LIMIT
+                hang = cpu - self.cur_cpu0 > self.cur_limit
             else:
                 hang = False
             if hang or now - self.cur_wall0 > WALL_LIMIT:
@@ -143,8 +146,9 @@ class Worker:
                 self.proc.wait()
                 self.read()
                 self.fh.close()
-                why = ("used more than %.0f s of CPU time on this one input" % CPU_LIMIT) if hang else \
+                why = ("used more than %.0f s of CPU time on this one input" % self.cur_limit) if hang else \
                       ("made no progress for %.0f s of wall-clock time" % WALL_LIMIT)
+                self.hangs += 1
                 self.results[self.cur] = json.dumps({"st": "hang", "viol": [
                     "parse_design_source does not terminate: the watched process %s" % why]})
                 nxt = self.cur + 1
@@ -172,7 +176,7 @@ def run_oracle(hbin, cases_path, ncases, outdir, nwork=NWORK):
         if not alive:
             break
         # every hang costs CPU_LIMIT seconds: after MAX_HANGS of them the stream is abandoned (the check has failed anyway)
-        nh = sum(1 for w in ws for r in w.results.values() if r.startswith('{"st": "hang"') or r.startswith('{"st": "crash"'))
+        nh = sum(w.hangs for w in ws)
         if nh >= MAX_HANGS:
             aborted = True
             for w in ws:
@@ -517,8 +521,10 @@ def run_model(mbin, mode, lines, path):
 
 def oracle_stage(res, hbin, mbin, cases_path, tag, stats, kf_entries, kf_hits, loop_samples):
     d = rundir(PROP)
+    t_stage = time.time()
     lines = [l for l in open(cases_path).read().split("\n") if l]
     results, aborted = run_oracle(hbin, cases_path, len(lines), os.path.join(d, "work_" + tag))
+    stats.setdefault("seconds", {})["oracle_" + tag] = round(time.time() - t_stage, 1)
     if aborted:
         stats["abandoned_streams"] = stats.get("abandoned_streams", []) + [tag]
     loop_idx, loop_lines = [], []
@@ -560,8 +566,19 @@ def oracle_stage(res, hbin, mbin, cases_path, tag, stats, kf_entries, kf_hits, l
                 stats["sums"]["err_returns"] = stats["sums"].get("err_returns", 0) + 1
             stats["sums"]["iterations"] = stats["sums"].get("iterations", 0) + max(0, len(o.get("trace", [])) - 1)
             stats["max_tokens"] = max(stats.get("max_tokens", 0), o.get("nt", 0))
-            loop_idx.append(i)
-            loop_lines.append(loop_case(o))
+            # the extracted model is quadratic (Peano fuel, list lookups): inputs with very many iterations over very
+            # many tokens are checked for progress / offset consistency here and not replayed through it
+            if o.get("nt", 0) <= MAX_REPLAY_TOKENS and len(o.get("trace") or []) * max(1, o.get("nt", 0)) <= MAX_REPLAY_WORK:
+                loop_idx.append(i)
+                loop_lines.append(loop_case(o))
+            else:
+                stats["loop_replay_skipped_large"] = stats.get("loop_replay_skipped_large", 0) + 1
+                tr = o["trace"]
+                stuck = [(tr[k][0], tr[k + 1][0]) for k in range(len(tr) - 1) if not tr[k][0] < tr[k + 1][0] <= o["nt"]]
+                offs = [k for k in range(len(tr) - 1) if tr[k + 1][1] != tr[k][1] and tr[k + 1][1] != tr[k + 1][0]]
+                if stuck or offs:
+                    o.setdefault("viol", []).append("progress hypothesis violated / token_offset inconsistent at iterations %s %s"
+                                                    % (stuck[:3], offs[:3]))
         if i % 2500 == 0 and st == "ok":
             _, text = case_text(line)
             res.add_sample({"class": cls, "text": text[:300], "tokens": o["nt"], "units": o.get("units", [])[:6],
@@ -592,7 +609,10 @@ def oracle_stage(res, hbin, mbin, cases_path, tag, stats, kf_entries, kf_hits, l
                                "outcome": st, "violations": o["viol"], "result": {k: v for k, v in o.items() if k not in ("kinds",)},
                                "replay_cmd": "./check C02 --replay <this file>"})
     # correspondence A: loop replay
+    t_model = time.time()
+    stats["seconds"]["evaluate_" + tag] = round(t_model - t_stage - stats["seconds"]["oracle_" + tag], 1)
     model, err = run_model(mbin, "loop", loop_lines, os.path.join(d, "loop_" + tag))
+    stats["seconds"]["loop_model_" + tag] = round(time.time() - t_model, 1)
     if model is None:
         res.violation("extracted loop model failed on stream %s" % tag, {"kind": "build", "log": err[-2000:]}, no_failing_input=True)
         return parsed
@@ -756,7 +776,7 @@ def main(tier, replay=None):
             res.violation("harness c02 gen crashed", {"kind": "harness", "log": out[-2000:]}, no_failing_input=True)
             return res.finish()
         oracle_stage(res, hbin, mbin, gpath, "gen", stats, kf_entries, kf_hits, loop_samples)
-        ops_stage(res, hbin, mbin, ("ops", seed(), 300000 if tier == "thorough" else 30000), "ops", stats, ops_samples)
+        ops_stage(res, hbin, mbin, ("ops", seed(), 600000 if tier == "thorough" else 30000), "ops", stats, ops_samples)
     coq_cross_check(res, loop_samples[:160], ops_samples[:160])
     if not res.violations and not replay:
         # the generated streams are reproducible from the seed: drop the bulky intermediate files of a clean run
@@ -782,6 +802,8 @@ def main(tier, replay=None):
     if stats.get("abandoned_streams"):
         res.coverage["abandoned_streams"] = stats["abandoned_streams"]
         res.coverage["inputs_not_evaluated"] = stats.get("not_evaluated", 0)
+    res.coverage["stage_seconds"] = stats.get("seconds", {})
+    res.coverage["loop_replay_skipped_large_inputs"] = stats.get("loop_replay_skipped_large", 0)
     res.coverage["deep_inputs_beyond_nesting_limit"] = stats.get("deep_beyond_limit", 0)
     res.coverage["known_finding_inputs"] = {k: v["n"] for k, v in kf_hits.items()}
     res.coverage["exhaustive"] = False
